@@ -62,11 +62,11 @@ class Invariance(SxContract):
         if self.what == "indep":
             row = simplex_reduced(ctx, 1, K, eps=eps, name="q")
             P = np.vstack([row] * n)
-        elif self.what == "onehot":
+        elif self.what in ("onehot", "duplicates"):
             P = np.empty((n, K), dtype=object)
             for i in range(n):
                 for k in range(K):
-                    P[i, k] = sx.Sx(dag.const(1 if k == i % K else 0))
+                    P[i, k] = sx.Sx(dag.const(1 if k == (i % K if self.what == "onehot" else (i // 2) % K) else 0))
         elif self.what == "empty":
             P0 = simplex_reduced(ctx, n, K, eps=eps)
             P = np.empty((n, K + 1), dtype=object)
@@ -75,6 +75,13 @@ class Invariance(SxContract):
         else:
             P = simplex_reduced(ctx, n, K, eps=eps)
         A = sx.sym_symmetric(ctx, "a", n, lo=-1.0, hi=2.0) if self.needA else None
+        if self.what == "duplicates" and A is not None:
+            # samples 2i and 2i+1 are identical: equal rows / columns of the affinity
+            for i in range(0, n - 1, 2):
+                A[i + 1, :] = A[i, :]
+                A[:, i + 1] = A[:, i]
+                A[i + 1, i + 1] = A[i, i]
+                A[i, i + 1] = A[i + 1, i] = A[i, i]
         self.g = getattr(G, self.cls)(ovo=self.ovo)
         self.g.epsilon = eps
         return {"P": P, "A": A}
@@ -122,10 +129,20 @@ class Invariance(SxContract):
             yield "grad shape", prove.holds(getattr(g0, "shape", None) == P.shape)
             for i in range(n):
                 yield f"empty cluster gradient [{i}] == 0", prove.eq(g0[i, K - 1], 0)
-        elif self.what == "onehot":
-            yield "grad shape", prove.holds(getattr(g0, "shape", None) == P.shape)
+        elif self.what in ("onehot", "duplicates"):
+            yield "grad shape", prove.holds(getattr(g0, "shape", None) == P.shape, f"{getattr(g0, 'shape', None)} vs {P.shape}")
             fin = not (sx.lift(s0) is sx.TOK or any(sx.lift(x) is sx.TOK for x in np.asarray(g0, dtype=object).flat))
-            yield "score and gradient finite on one-hot rows", prove.holds(fin)
+            yield "score and gradient finite (no non-finite value reaches them)", prove.holds(fin)
+
+    def native(self, env, inp):
+        """float replay of the shape / finiteness clauses on the real evaluate"""
+        P = sx.to_float(inp["P"], env)
+        A = None if inp["A"] is None else sx.to_float(inp["A"], env)
+        g = getattr(G, self.cls)(ovo=self.ovo)
+        s, gr = g.evaluate(P, A, return_grad=True)
+        ok = np.shape(gr) == P.shape and bool(np.isfinite(s)) and bool(np.all(np.isfinite(gr)))
+        det = {"P": P.tolist(), "grad_shape": list(np.shape(gr)), "score": float(s)}
+        return {"grad shape": (np.shape(gr) == P.shape, det), "*": (ok, det)}
 
 
 from fractions import Fraction as Q  # noqa: E402
